@@ -241,6 +241,9 @@ func runC04(w *World, r *Report) {
 	r.Rule("retain", "elements decoded in list loops are stored into the receiver", 8)
 	r.Rule("window", "a bounded window handed to a child decoder is exactly the element's declared length", 10)
 	r.Rule("exhaust", "list-decoding loops run while any element can remain", 10)
+	r.Rule("keepall", "an element consumed by a list loop is stored on every path", 0)
+	r.Rule("padstep", "branches of a list loop agree on stepping over alignment padding", 10)
+	r.Rule("oxm-varlen", "variable-length OXM payloads are decoded with oxm_length (no mask) or half of it (mask)", 2)
 	r.Rule("fresh", "a value decoded into inside a list loop is new in each iteration (or fully overwritten by the child decoder)", 10)
 	codes, err := loadCodes()
 	if err != nil {
@@ -566,6 +569,7 @@ func runC04(w *World, r *Report) {
 		}
 	}
 
+	w.oxmVarLenRule(r)
 	// ---------------------------------------------------------------- retain
 	for _, k := range w.KindsL {
 		if k.Unmarshal == nil || !k.OwnUnmarshal || k.Pkg.Name == "protocol" {
@@ -576,6 +580,8 @@ func runC04(w *World, r *Report) {
 			freshRule(w, r, dfi)
 			windowRule(w, r, dfi)
 			exhaustRule(w, r, dfi)
+			keepAllRule(w, r, dfi)
+			padStepRule(w, r, dfi)
 		}
 	}
 }
@@ -818,4 +824,247 @@ func consumesAll(w *World, fi *FuncInfo) string {
 		}
 	}
 	return ""
+}
+
+// padStepRule: the branches of one list-decoding loop advance the cursor consistently with respect to
+// alignment padding: when one branch steps over an element by round8(t) and another by the bare t (the same
+// length term), the second lands in the first's padding for every element whose length is not a multiple of 8.
+func padStepRule(w *World, r *Report, dfi *FuncInfo) {
+	ds := w.Interpret(dfi, "decode")
+	if ds == nil {
+		return
+	}
+	for li, l := range ds.Loops {
+		for _, c := range l.Cursors {
+			if c.Step == nil && len(c.Paths) == 0 {
+				continue
+			}
+			inst := fmt.Sprintf("loop#%d/%s", li+1, c.Var)
+			st := c.Step
+			if st == nil {
+				st = c.Paths[0]
+			}
+			t := stripWraps(st, map[string]bool{})
+			bad := ""
+			var arms []*Term
+			var collect func(t *Term)
+			collect = func(t *Term) {
+				hasIte := false
+				for _, k := range t.keys() {
+					a := t.Atoms[k]
+					if a.Kind == "ite" && len(a.Sub) == 2 {
+						hasIte = true
+						rest := t.AddScaled(FromAtom(a), -t.K[k])
+						collect(rest.AddScaled(a.Sub[0], t.K[k]))
+						collect(rest.AddScaled(a.Sub[1], t.K[k]))
+						return
+					}
+				}
+				if !hasIte && len(arms) < 16 {
+					arms = append(arms, t)
+				}
+			}
+			collect(t)
+			// steps recorded per path as well
+			for _, p := range c.Paths {
+				if len(arms) < 32 {
+					arms = append(arms, stripWraps(p, map[string]bool{}))
+				}
+			}
+			for i := 0; i < len(arms) && bad == ""; i++ {
+				for j := 0; j < len(arms); j++ {
+					if i == j {
+						continue
+					}
+					if at := arms[i].SingleAtom(); at != nil && at.Kind == "round8" && arms[i].C == 0 && arms[i].K[at.Key()] == 1 {
+						if at.Sub[0].Equal(arms[j]) && !arms[i].Equal(arms[j]) && !arms[j].IsConst() {
+							bad = fmt.Sprintf("one branch advances by %v, another by %v", arms[i], arms[j])
+							break
+						}
+					}
+				}
+			}
+			if bad != "" {
+				r.Fail(VViolation, "padstep", dfi.Key, inst, w.Pos(l.Pos), bad+": the second lands inside the alignment padding of every element whose length is not a multiple of 8, and the next element is read from there")
+			} else {
+				r.OK("padstep", dfi.Key, inst, w.Pos(l.Pos), fmt.Sprintf("step %v: no branch skips padding another applies", st), len(arms) > 1)
+			}
+		}
+	}
+}
+
+// leavesUnder enumerates the values a term can take over the branches of its ite atoms, with the conditions
+// named in fixed decided (at most 4096 distinct leaves).
+func leavesUnder(t *Term, fixed map[string]bool) []*Term {
+	seen := map[string]bool{}
+	var out []*Term
+	var rec func(t *Term, depth int)
+	rec = func(t *Term, depth int) {
+		if len(out) >= 4096 || depth > 200 {
+			return
+		}
+		for _, k := range t.keys() {
+			a := t.Atoms[k]
+			switch a.Kind {
+			case "ite":
+				rest := t.AddScaled(FromAtom(a), -t.K[k])
+				pick := -1
+				if v, ok := fixed[a.Cond]; ok {
+					pick = boolInt(!v)
+				} else if v, ok := fixed[strings.TrimSuffix(strings.TrimPrefix(a.Cond, "!("), ")")]; ok && strings.HasPrefix(a.Cond, "!(") {
+					pick = boolInt(v)
+				}
+				for i, arm := range a.Sub {
+					if pick >= 0 && i != pick {
+						continue
+					}
+					rec(rest.AddScaled(arm, t.K[k]), depth+1)
+				}
+				return
+			case "div", "wrap", "round8":
+				// split inside the operand
+				inner := leavesUnder(a.Sub[0], fixed)
+				if len(inner) == 1 && inner[0].Equal(a.Sub[0]) {
+					continue
+				}
+				rest := t.AddScaled(FromAtom(a), -t.K[k])
+				for _, in := range inner {
+					var na *Term
+					switch a.Kind {
+					case "div":
+						na = Div(in, a.Sub[1])
+					case "round8":
+						na = Round8(in)
+					default:
+						na = in
+					}
+					rec(rest.AddScaled(na, t.K[k]), depth+1)
+				}
+				return
+			}
+		}
+		if s := t.String(); !seen[s] {
+			seen[s] = true
+			out = append(out, t)
+		}
+	}
+	rec(t, 0)
+	return out
+}
+
+// oxmVarLenRule: a variable-length OXM payload (tunnel metadata, xxreg) is decoded with the width
+// oxm_length when the field has no mask and oxm_length/2 when it has one (OpenFlow 1.3.5 §7.2.3.2: the
+// length covers value and mask). The width is decided by two cooperating sites — the argument the field
+// decoder passes and the case of the payload dispatcher that stores it — so the rule composes them.
+func (w *World) oxmVarLenRule(r *Report) {
+	caller, callee := w.Funcs["openflow13.MatchField.UnmarshalBinary"], w.Funcs["openflow13.DecodeMatchField"]
+	if caller == nil || callee == nil {
+		r.Fail(VViolation, "oxm-varlen", "openflow13.DecodeMatchField", "", "-", "the field decoder or the payload dispatcher no longer exists (anchor of the rule cannot be resolved)")
+		return
+	}
+	// position of the length and mask parameters of the dispatcher
+	li, mi := -1, -1
+	idx := 0
+	for _, fl := range callee.Decl.Type.Params.List {
+		for _, nm := range fl.Names {
+			switch nm.Name {
+			case "length":
+				li = idx
+			case "hasMask":
+				mi = idx
+			}
+			idx++
+		}
+	}
+	if li < 0 || mi < 0 {
+		r.Fail(VUndecided, "oxm-varlen", callee.Key, "", w.Pos(callee.Decl.Pos()), "the dispatcher has no parameters named length and hasMask")
+		return
+	}
+	cs := w.Interpret(callee, "decode")
+	// every width the dispatcher stores into a payload object, as a term over its length parameter
+	type stored struct{ obj string; t *Term }
+	var widths []stored
+	seenW := map[string]bool{}
+	for _, rt := range cs.Rets {
+		if rt.IsErr || rt.St == nil {
+			continue
+		}
+		for k, v := range rt.St.fields {
+			if !strings.HasPrefix(k, "new#") || !strings.HasSuffix(k, ".Length") {
+				continue
+			}
+			if iv, ok := v.(IntV); ok && !iv.T.IsConst() && !seenW[k+iv.T.String()] {
+				seenW[k+iv.T.String()] = true
+				widths = append(widths, stored{k, iv.T})
+			}
+		}
+	}
+	if len(widths) == 0 {
+		r.Fail(VViolation, "oxm-varlen", callee.Key, "", w.Pos(callee.Decl.Pos()), "no case of the dispatcher stores a width taken from the header length: variable-length payloads are not decoded")
+		return
+	}
+	sort.Slice(widths, func(i, j int) bool { return widths[i].obj < widths[j].obj })
+	fs := w.Interpret(caller, "decode")
+	nCalls := 0
+	for _, c := range fs.Calls {
+		if c.Callee == nil || w.FuncOf(c.Callee) != callee || len(c.Args) <= li || len(c.Args) <= mi {
+			continue
+		}
+		nCalls++
+		la, okL := c.Args[li].(IntV)
+		ma, okM := c.Args[mi].(BoolV)
+		inst := fmt.Sprintf("call#%d", nCalls)
+		if !okL || !okM || la.T == nil {
+			r.Fail(VUndecided, "oxm-varlen", caller.Key, inst, w.Pos(c.Pos), "the length or mask argument of the dispatcher call is not a value the interpreter can follow")
+			continue
+		}
+		// the header length as the caller read it: the single val atom of the argument
+		var hdr *Term
+		stripWraps(la.T, map[string]bool{}).HasAtom(func(a *Atom) bool {
+			if a.Kind == "val" && hdr == nil {
+				hdr = FromAtom(a)
+			}
+			return false
+		})
+		if hdr == nil {
+			r.Fail(VUndecided, "oxm-varlen", caller.Key, inst, w.Pos(c.Pos), "the length argument "+la.T.String()+" is not derived from a header field")
+			continue
+		}
+		var bad []string
+		for _, m := range []bool{false, true} {
+			want := hdr
+			if m {
+				want = Div(hdr, Const(2))
+			}
+			argLeaves := leavesUnder(stripWraps(la.T, map[string]bool{}), map[string]bool{ma.Cond: m})
+			for _, wd := range widths {
+				for _, leaf := range leavesUnder(stripWraps(wd.t, map[string]bool{}), map[string]bool{"arg:hasMask": m}) {
+					if leaf.IsConst() {
+						continue // the object is not the one allocated for this field number
+					}
+					for _, al := range argLeaves {
+						got := leaf.Map(func(a *Atom) *Term {
+							if a.Kind == "val" && a.Path == "arg:length" {
+								return al
+							}
+							return nil
+						})
+						got = leavesUnder(got, nil)[0]
+						if !got.Equal(want) {
+							bad = append(bad, fmt.Sprintf("with mask=%v a payload is decoded with width %v, specified %v (object %s)", m, got, want, strings.TrimSuffix(wd.obj, ".Length")))
+						}
+					}
+				}
+			}
+		}
+		if len(bad) > 0 {
+			sort.Strings(bad)
+			r.Fail(VViolation, "oxm-varlen", caller.Key, inst, w.Pos(c.Pos), summarise(bad)+": the caller's argument and the dispatcher's case together must halve the header length exactly once for a masked field")
+		} else {
+			r.OK("oxm-varlen", caller.Key, inst, w.Pos(c.Pos), fmt.Sprintf("%d payload widths: header length without mask, half of it with mask, for the argument %v", len(widths), la.T), true)
+		}
+	}
+	if nCalls == 0 {
+		r.Fail(VViolation, "oxm-varlen", caller.Key, "", w.Pos(caller.Decl.Pos()), "the field decoder no longer calls the payload dispatcher")
+	}
 }
